@@ -13,6 +13,7 @@
 #include <functional>
 #include <map>
 #include <string>
+#include <unordered_map>
 #include <unordered_set>
 #include <vector>
 
@@ -29,6 +30,7 @@ struct Exec {
   int sig = 0, exitcode = 0;
   std::vector<vs_pt_t> pts;
   std::vector<uint64_t> hashes;
+  std::vector<uint64_t> parts; // 4 per choice point
   long steps = 0;
   std::string obs;   // observation string written by the scenario (monitor verdicts, output digest)
   std::string fatal; // description of blocked threads etc.
@@ -51,6 +53,7 @@ inline void child_write(int outcome, const std::string &extra) {
   write_all(g_wfd, hdr, sizeof hdr);
   write_all(g_wfd, vs_pts, sizeof(vs_pt_t) * vs_npts);
   write_all(g_wfd, vs_hashes, sizeof(uint64_t) * vs_npts);
+  write_all(g_wfd, vs_parts, sizeof(uint64_t) * 4 * vs_npts);
   write_all(g_wfd, obs.data(), obs.size());
   write_all(g_wfd, extra.data(), extra.size());
 }
@@ -69,6 +72,7 @@ namespace vx {
 struct Config {
   int bound = 2;          // preemption bound (bounded mode)
   bool sleep = false;     // unbounded search with sleep sets
+  bool stateful = false;  // state-matching search: do not branch below a choice point whose canonical state was expanded before
   bool delay = false;     // delay bounding: every non-default choice costs one deviation (also at blocking points)
   int spurious = 0;       // spurious wake-ups allowed per execution (bounded mode), each counts as one deviation
   long maxexec = -1;      // cap on executions (-1: none)
@@ -84,6 +88,8 @@ struct Stats {
   std::map<std::string, long> outcomes;     // outcome name -> count
   std::map<std::string, long> observations; // distinct obs strings -> count
   std::unordered_set<uint64_t> states;
+  long state_cuts = 0;            // executions whose branching was cut at an already expanded state
+  long succ_checked = 0, succ_mismatch = 0; // validation of the abstraction: (state, thread chosen) must always lead to the same next state
   bool capped = false;
   int max_preemptions_seen = 0;
 };
@@ -130,6 +136,8 @@ inline Exec run_one(const std::vector<int> &prefix, const Config &cfg, const Sce
     r.fatal.resize(hdr[4]);
     rd(r.pts.data(), sizeof(vs_pt_t) * hdr[1]);
     rd(r.hashes.data(), sizeof(uint64_t) * hdr[1]);
+    r.parts.resize(4 * hdr[1]);
+    rd(r.parts.data(), sizeof(uint64_t) * 4 * hdr[1]);
     if (hdr[3]) rd(&r.obs[0], hdr[3]);
     if (hdr[4]) rd(&r.fatal[0], hdr[4]);
   }
@@ -163,6 +171,10 @@ struct Explorer {
   std::function<void(const Exec &, const std::vector<int> &prefix)> on_exec;
   std::chrono::steady_clock::time_point t0;
   long toplevel_counter = 0;
+  std::unordered_set<uint64_t> expanded;                 // stateful mode: states whose alternatives have been scheduled
+  std::unordered_map<uint64_t, uint64_t> successor;      // (state, chosen thread) -> next choice-point state
+  std::unordered_map<uint64_t, std::vector<uint64_t>> succparts; // debugging (VS_DEBUG_ABS)
+  std::unordered_map<uint64_t, std::vector<int>> succwho;
 
   bool out_of_budget() {
     if (cfg.maxexec >= 0 && st.executions >= cfg.maxexec) { st.capped = true; return true; }
@@ -194,8 +206,32 @@ struct Explorer {
       const vs_pt_t &p = x.pts[i];
       pre[i + 1] = pre[i] + ((p.chosen_idx >= p.spur_from || ((p.cur_enabled || cfg.delay) && p.chosen_idx != 0)) ? 1 : 0);
     }
+    if (cfg.stateful && mine) { // abstraction check: the same (state, thread) must always be followed by the same state
+      for (size_t i = 0; i + 1 < x.pts.size(); i++) {
+        uint64_t k = x.hashes[i] * 31 + x.pts[i].chosen_tid + 1, nx = x.hashes[i + 1];
+        auto it = successor.find(k);
+        st.succ_checked++;
+        if (it == successor.end()) { successor[k] = nx; if (getenv("VS_DEBUG_ABS")) { auto &v = succparts[k]; v.assign(x.parts.begin() + 4 * (i + 1), x.parts.begin() + 4 * (i + 2)); succwho[k] = choices_of(x); succwho[k].resize(i + 2); } }
+        else if (it->second != nx) {
+          st.succ_mismatch++;
+          if (getenv("VS_DEBUG_ABS") && st.succ_mismatch <= 5) {
+            auto &v = succparts[k];
+            fprintf(stderr, "ABS-MISMATCH at point %zu (chosen t%d): parts differ:", i, x.pts[i].chosen_tid);
+            const char *nm[4] = {"thread-ops", "control-loc", "mutex", "observable"};
+            for (int q = 0; q < 4; q++) if (v.size() == 4 && v[q] != x.parts[4 * (i + 1) + q]) fprintf(stderr, " %s", nm[q]);
+            fprintf(stderr, "\n  first:"); for (int c : succwho[k]) fprintf(stderr, " %d", c);
+            fprintf(stderr, "\n  now:  "); for (size_t q = 0; q < i + 2 && q < x.pts.size(); q++) fprintf(stderr, " %d", x.pts[q].chosen_idx);
+            fprintf(stderr, "\n");
+          }
+        }
+      }
+    }
     for (size_t i = prefix.size(); i < x.pts.size(); i++) {
       const vs_pt_t &p = x.pts[i];
+      if (cfg.stateful) {
+        if (expanded.count(x.hashes[i])) { st.state_cuts++; break; } // everything below this state is (being) explored from its first visit
+        expanded.insert(x.hashes[i]);
+      }
       for (int alt = p.chosen_idx + 1; alt < p.nen; alt++) {
         if (!cfg.sleep) {
           int cost = pre[i] + ((alt >= p.spur_from || p.cur_enabled || cfg.delay) ? 1 : 0);
